@@ -467,10 +467,10 @@ class Builder:
         return el.get("{%s}href" % XLINK) or el.get("href")
 
     def url_target(self, v):
-        m = re.match(r"^url\(\s*#([^)\s]+)\s*\)$", (v or "").strip())
+        m = re.match(r"""^url\(\s*(["']?)#([^)\s"']+)\1\s*\)$""", (v or "").strip())
         if not m:
             return None
-        return self.ids.get(m.group(1))
+        return self.ids.get(m.group(2))
 
     def clip_region(self, cp_el, M, inh_for_clip):
         """A.4: region(id, M)"""
@@ -606,8 +606,13 @@ class Builder:
         if v == "none":
             return ("none",)
         if v.startswith("url("):
-            t = self.url_target(v)
+            # <paint> = url(...) [fallback]: the fallback counts only when the reference does not resolve
+            k = v.find(")")
+            head, fallback = v[: k + 1], v[k + 1 :].strip()
+            t = self.url_target(head)
             if t is None or local(t.tag)[1] not in ("linearGradient", "radialGradient"):
+                if fallback:
+                    return self.paint(fallback, m, bbox_fn)
                 raise Unsupported("paint server " + v)
             g = self.resolve_gradient(t)
             return ("grad", g, m, bbox_fn())
